@@ -464,9 +464,14 @@ func genScenario(rng *rand.Rand) (scenCfg, []envEvent, []inst.Window, time.Durat
 				e.kind = "post"
 				e.a = "A1"
 				e.mode = "fire"
-			} else {
+			} else if rng.Intn(2) == 0 {
 				e.kind = "expire"
 				e.sidx = rng.Intn(nsil)
+			} else {
+				// the end of an existing silence is moved (extended or cut short)
+				e.kind = "silupdate"
+				e.sidx = rng.Intn(nsil)
+				e.sdur = time.Duration(5+rng.Intn(int(2*cfg.T.gi/time.Second)+90))*time.Second + 125*time.Millisecond
 			}
 		default:
 			e.kind = "reload"
@@ -642,6 +647,11 @@ func TestScenarios(t *testing.T) {
 			}
 			synctest.Wait()
 			var silIDs []string
+			type silRec struct {
+				ms    string
+				start time.Time
+			}
+			var silRecs []silRec
 			for _, e := range evs {
 				if d := e.at - hx.SinceEpoch(); d > 0 {
 					time.Sleep(d)
@@ -673,9 +683,37 @@ func TestScenarios(t *testing.T) {
 						"endsAt": en.Format(time.RFC3339Nano), "createdBy": "u", "comment": "c"})
 					if code == 200 {
 						silIDs = append(silIDs, id)
+						silRecs = append(silRecs, silRec{ms: e.ms, start: st})
 					}
 					lg.Add(inst.Event{Ev: "sil.set", Data: map[string]any{"ms": e.ms, "start": inst.Ms() + int64(e.soff/time.Millisecond),
 						"end": inst.Ms() + int64((e.soff+e.sdur)/time.Millisecond), "code": code, "idx": len(silIDs) - 1}})
+				case "silupdate":
+					if e.sidx < len(silIDs) {
+						rec := silRecs[e.sidx]
+						en := time.Now().Add(e.sdur)
+						code, id := in.PostSilence(map[string]any{"id": silIDs[e.sidx], "matchers": silenceLib[rec.ms], "startsAt": rec.start.Format(time.RFC3339Nano),
+							"endsAt": en.Format(time.RFC3339Nano), "createdBy": "u", "comment": "moved"})
+						if code != 200 {
+							lg.Add(inst.Event{Ev: "sil.update", Data: map[string]any{"idx": e.sidx, "code": code, "start": 0, "end": 0}})
+							break
+						}
+						// what the API says is stored now is the observer's input (the update rules are C12's)
+						var got struct {
+							StartsAt time.Time `json:"startsAt"`
+							EndsAt   time.Time `json:"endsAt"`
+						}
+						if in.Get("/api/v2/silence/"+id, &got) != 200 {
+							t.Fatalf("silence %s not readable after its update", id)
+						}
+						if id == silIDs[e.sidx] {
+							lg.Add(inst.Event{Ev: "sil.update", Data: map[string]any{"idx": e.sidx, "code": code, "start": ms(got.StartsAt), "end": ms(got.EndsAt)}})
+						} else {
+							// the old silence had expired: the API created a new one
+							silIDs = append(silIDs, id)
+							silRecs = append(silRecs, silRec{ms: rec.ms, start: got.StartsAt})
+							lg.Add(inst.Event{Ev: "sil.set", Data: map[string]any{"ms": rec.ms, "start": ms(got.StartsAt), "end": ms(got.EndsAt), "code": code, "idx": len(silIDs) - 1}})
+						}
+					}
 				case "expire":
 					if e.sidx < len(silIDs) {
 						code := in.DeleteSilence(silIDs[e.sidx])
